@@ -27,7 +27,7 @@ INV = ["TypeOK", "TW", "TWEnd", "TNoBadFree"]
 def run(ctx):
     ev = ctx.ev
     # ---- the abstract machine, exhaustively
-    r = vlib.tlc("MC_Heap", coverage=True, timeout=600, quiet=True)
+    r = vlib.tlc("MC_Heap", coverage=True, timeout=600, quiet=True, workers=4)
     if vlib.tlc_infra_failed(r):
         ctx.note_inconclusive("MC_Heap gave no verdict rc=%s %s" % (r.rc, (r.error or "")[-300:]))
     elif r.rc != 0:
@@ -45,7 +45,7 @@ def run(ctx):
         cfg = ctx.path("mc_%s.cfg" % sw)
         with open(cfg, "w") as f:
             f.write(base.replace(sw + " = TRUE", sw + " = FALSE"))
-        rr = vlib.tlc("MC_Heap", cfg, timeout=600, workers=4, quiet=True)
+        rr = vlib.tlc("MC_Heap", cfg, timeout=600, workers=2, quiet=True)
         return sw, want, rr
     rejected = {}
     for sw, want, rr in vlib.parallel([(lambda s=s, w=w: bad(s, w)) for s, w in SWITCHES], n=5):
